@@ -150,6 +150,20 @@ CLASSES = {
 ANY_ATTRS = dict(NODE_ATTRS)
 ANY_ATTRS.update({"__cause__": ANY, "partial_state": ANY, "_partial_state": ANY, "pause_info": ANY, "error": ANY, "status": ANY})
 ANY_METHODS = dict(NODE_METHODS)
+ANY_METHODS.update({
+    # event processors (user code): may raise anything; the async variants are coroutine functions
+    "on_event": {"pure": False, "returns": NONE_T, "raises": ["Exception"]},
+    "on_event_async": {"pure": False, "returns": NONE_T, "raises": ["Exception"], "coroutine": True},
+    "shutdown": {"pure": False, "returns": NONE_T, "raises": ["Exception"]},
+    "shutdown_async": {"pure": False, "returns": NONE_T, "raises": ["Exception"], "coroutine": True},
+    # logging: dropped (assumed effect-free and non-raising, DESIGN 2.1)
+    "warning": {"pure": False, "returns": NONE_T, "raises": []},
+    "info": {"pure": False, "returns": NONE_T, "raises": []},
+    "debug": {"pure": False, "returns": NONE_T, "raises": []},
+    "error": {"pure": False, "returns": NONE_T, "raises": []},
+    "exception": {"pure": False, "returns": NONE_T, "raises": []},
+    "with_traceback": {"returns": ANY},
+})
 OPAQUE = {}
 
 
